@@ -486,7 +486,26 @@ def verbatim_flow(chk, c, rule):
                     ('parser.parse_segment', 'parse_fields')):
         fi = ix.func(fq)
         calls = [n for n in own_nodes(fi.node) if isinstance(n, ast.Call) and norm(n.func) == arg]
-        ok = bool(calls) and all(cl.args and norm(cl.args[0]) == 'text' for cl in calls)
+
+        def is_text(e, fi=fi, fq=fq):
+            # the parameter itself, or a local every assignment of which is one of the harmless cuts of it
+            if e is None:
+                return False
+            if norm(e) == 'text':
+                return True
+            if isinstance(e, ast.Name):
+                vals = [a.value for a in own_nodes(fi.node) if isinstance(a, ast.Assign) and any(norm(t) == e.id for t in a.targets)]
+                return bool(vals) and all(harmless(v, fq) for v in vals)
+            return False
+
+        def first_arg(cl):
+            if cl.args:
+                return cl.args[0]
+            for k in cl.keywords:
+                if k.arg == 'text':
+                    return k.value
+            return None
+        ok = bool(calls) and all(is_text(first_arg(cl)) for cl in calls)
         nedges += 1
         chk.ob(rule, '%s passes its text unchanged to %s' % (fq, arg), ok, '', fi.loc, key='%s|%s|down' % (rule, fq))
     psc = ix.func('parser.parse_subcomponent')
